@@ -53,6 +53,7 @@ type WireCase struct {
 	Blocks []CBlock `json:"blocks"`
 	Rid    *uint32  `json:"rid"`
 	Seal   bool     `json:"seal"`
+	Base   []string `json:"base"` // caller-supplied base symbol table (WithSymbols / Unmarshaler{Symbols}); nil = default
 }
 
 func (t CTerm) term() biscuit.Term {
@@ -300,9 +301,22 @@ func resignWithVersion(w *WBiscuit, version *uint64) ([]byte, ed25519.PublicKey)
 func runWire(c *WireCase) (interface{}, error) {
 	pub, priv := fixedKey("wire-root")
 	var b biscuit.Builder
-	if c.Rid != nil {
+	unmarshal := biscuit.Unmarshal
+	switch {
+	case c.Base != nil:
+		base := datalog.SymbolTable(append([]string{}, c.Base...))
+		if c.Rid != nil {
+			b = biscuit.NewBuilder(priv, biscuit.WithSymbols(&base), biscuit.WithRootKeyID(*c.Rid))
+		} else {
+			b = biscuit.NewBuilder(priv, biscuit.WithSymbols(&base))
+		}
+		unmarshal = func(ser []byte) (*biscuit.Biscuit, error) {
+			t := datalog.SymbolTable(append([]string{}, c.Base...))
+			return (&biscuit.Unmarshaler{Symbols: &t}).Unmarshal(ser)
+		}
+	case c.Rid != nil:
 		b = biscuit.NewBuilder(priv, biscuit.WithRootKeyID(*c.Rid))
-	} else {
+	default:
 		b = biscuit.NewBuilder(priv)
 	}
 	for _, f := range c.Blocks[0].Facts {
@@ -328,7 +342,7 @@ func runWire(c *WireCase) (interface{}, error) {
 	for i, blk := range c.Blocks[1:] {
 		if i%2 == 1 { // a token that travelled as bytes is attenuated further
 			ser, _ := tok.Serialize()
-			tok, err = biscuit.Unmarshal(ser)
+			tok, err = unmarshal(ser)
 			if err != nil {
 				return map[string]interface{}{"harness": "intermediate reload: " + err.Error()}, nil
 			}
@@ -381,10 +395,34 @@ func runWire(c *WireCase) (interface{}, error) {
 	rt := []string{}
 	// round trip
 	before := snapshot(tok, pub)
-	re, err := biscuit.Unmarshal(ser)
+	re, err := unmarshal(ser)
 	if err != nil {
 		rt = append(rt, "Unmarshal(Serialize()) fails: "+err.Error())
 	} else {
+		// accessors of the reloaded token, judged by TraceWire against the caller's content
+		lookups := []map[string]interface{}{}
+		for _, blk := range c.Blocks {
+			for _, f := range blk.Facts {
+				got, err := re.GetBlockID(biscuit.Fact{Predicate: f.pred()})
+				if err != nil {
+					got = -1
+				}
+				lookups = append(lookups, map[string]interface{}{"fact": f, "got": got})
+			}
+		}
+		absent := CPred{Name: "surely_absent_fact", Terms: []CTerm{{K: "int", S: "12345"}}}
+		g, err := re.GetBlockID(biscuit.Fact{Predicate: absent.pred()})
+		if err != nil {
+			g = -1
+		}
+		lookups = append(lookups, map[string]interface{}{"fact": absent, "got": g})
+		out["lookups"] = lookups
+		out["context"] = re.GetContext()
+		nc := []int{}
+		for _, cs := range re.Checks() {
+			nc = append(nc, len(cs))
+		}
+		out["nchecks"] = nc
 		if after := snapshot(re, pub); after != before {
 			rt = append(rt, "content / revocation ids / root key id / authorization differ after Unmarshal")
 		}
